@@ -16,10 +16,11 @@ T1 == ndJsonDeserialize("trace.ndjson")
 T2 == ndJsonDeserialize("trace2.ndjson")
 
 VARIABLES l, bad
-Fields == {"code", "rh", "ah", "st", "dig", "app", "calls", "wack", "sent"}
-
+\* every recorded field is compared, except the free-form notes of the harness (info) - the fields differ by family:
+\* packet families log code, rh (fingerprint of the whole transaction result), ah (application hash of every chain), st,
+\* dig, app, calls, wack, sent; the light-client families log code, log, st and cdig (the client's sub-store, byte for byte)
 Diff(a, b) == {[tr |-> a.tr, i |-> a.i, v |-> [p |-> "C20", f |-> "executions_differ", d |-> x]] :
-                 x \in {y \in Fields : a[y] # b[y]}}
+                 x \in {y \in (DOMAIN a) \ {"info"} : (y \notin DOMAIN b) \/ a[y] # b[y]}}
 
 Init == l = 0 /\ bad = {}
 Next == /\ l < Len(T1) /\ l < Len(T2)
